@@ -170,4 +170,358 @@ theorem response_inv {a : RArgs} {iss : Issued} (h : response a = .ok iss) :
       simp only [Bool.or_eq_false_iff] at hc'
       exact ⟨he', hc'.1, hc'.2, rfl, rfl⟩
 
+/-! ### facts about the arguments `_authn_response` hands to `_response`, shapes of what is issued, the recipient's view -/
+
+theorem effA_facts {c : Call} (h : effA c = true) :
+    c.rargs.encryptAssertion = true ∧ earlyReturn c.rargs = false ∧ assertionKept c.rargs = true ∧
+    ∃ k, chooseCert c.rargs.certAssertion c.rargs.md = .key k := by
+  unfold effA requestedA at h
+  simp only [Bool.and_eq_true] at h
+  obtain ⟨hr, ha⟩ := h
+  have h1 : c.rargs.encryptAssertion = true := hr
+  refine ⟨h1, ?_, ?_, chooseCert_available ha⟩
+  · simp [earlyReturn, h1]
+  · unfold assertionKept
+    rw [h1]
+    have := available_kept ha
+    simpa [Call.rargs] using this
+
+theorem outer_sealBody (ko : Option Key) (o : Outer) : (sealBody ko o).outer = o := by
+  cases ko <;> rfl
+
+theorem effAdv_facts {c : Call} (h : effAdv c = true) :
+    (∃ adv, c.rargs.advice = some adv) ∧ c.rargs.encryptedAdvice = true ∧ adviceKept c.rargs = true ∧
+    ∃ k, chooseCert c.rargs.certAdvice c.rargs.md = .key k := by
+  unfold effAdv requestedAdv at h
+  simp only [Bool.and_eq_true] at h
+  obtain ⟨⟨hr, hadv⟩, ha⟩ := h
+  have h1 : c.rargs.encryptedAdvice = true := hr
+  refine ⟨?_, h1, ?_, chooseCert_available ha⟩
+  · cases hc : c.advice with
+    | none => rw [hc] at hadv; cases hadv
+    | some adv => exact ⟨adv, hc⟩
+  · unfold adviceKept
+    rw [h1]
+    have := available_kept ha
+    simpa [Call.rargs] using this
+
+/-- the early return is taken exactly when the assertion is to be signed, not encrypted, and the Response
+    is not signed -/
+theorem earlyReturn_iff (c : Call) :
+    earlyReturn c.rargs = (c.opts.signAssertion && !c.opts.encryptAssertion && !c.opts.signResponse) := by
+  simp only [earlyReturn, Call.rargs]
+  cases c.opts.signAssertion <;> cases c.opts.encryptAssertion <;> cases c.opts.signResponse <;> rfl
+
+/-- Unless `_response` returns early, an advice assertion whose encryption is in effect leaves sealed
+    for one of the recipient's designated certificates — whatever happens to the assertion around it. -/
+theorem advice_sealed {c : Call} {iss : Issued} (heff : effAdv c = true) (he : earlyReturn c.rargs = false)
+    (h : createAuthnResponse c = .ok iss) :
+    ∃ k adv, iss.wire.body.outer.advice = some (.sealed k adv true) ∧ chooseCert c.certAdvice c.md = .key k := by
+  obtain ⟨⟨adv, hadv⟩, _, hkept, k, hc⟩ := effAdv_facts heff
+  have hB : ∀ {opsB advB}, partB c.rargs = .ok (opsB, advB) → advB = some (.sealed k (advAfterB c.rargs adv) true) := by
+    intro opsB advB hp
+    rcases partB_inv hp with ⟨hn, _⟩ | ⟨adv', _, hk', _⟩ | ⟨adv', ko, ha', _, hs, _, hb⟩
+    · rw [hadv] at hn; cases hn
+    · rw [hkept] at hk'; cases hk'
+    · rw [hadv] at ha'; cases ha'
+      rcases encryptStep_inv hs with ⟨hn, _⟩ | ⟨k', hk', hko, _⟩
+      · rw [hc] at hn; cases hn
+      · rw [hc] at hk'; cases hk'
+        subst hko
+        exact hb
+  refine ⟨k, advAfterB c.rargs adv, ?_, hc⟩
+  rcases response_inv h with ⟨he', _⟩ | ⟨_, _, hk', _⟩ | ⟨_, _, opsB, advB, ko, hp, _, _, hw⟩ | ⟨_, _, _, _, opsB, advB, hp, _, hw⟩
+  · rw [he] at he'; cases he'
+  · rw [hkept, hadv] at hk'; cases hk'
+  · rw [hw]
+    show (sealBody ko _).outer.advice = _
+    rw [outer_sealBody]
+    exact hB hp
+  · rw [hw]
+    exact hB hp
+
+theorem wellPosed_facts {c : Call} (h : wellPosed c = true) :
+    (requestedA c = true ∨ requestedAdv c = true) ∧ (requestedA c = true → effA c = true) ∧
+    (requestedAdv c = true → effAdv c = true) := by
+  unfold wellPosed at h
+  simp only [Bool.and_eq_true, Bool.or_eq_true, Bool.not_eq_true'] at h
+  obtain ⟨⟨h1, h2⟩, h3⟩ := h
+  refine ⟨h1, ?_, ?_⟩
+  · intro hr; rcases h2 with h2 | h2
+    · rw [hr] at h2; cases h2
+    · exact h2
+  · intro hr; rcases h3 with h3 | h3
+    · rw [hr] at h3; cases h3
+    · exact h3
+
+/-- advice encryption kept by `_response` on an existing advice assertion was requested -/
+theorem requestedAdv_of_kept {c : Call} (hk : adviceKept c.rargs = true) (ha : c.rargs.advice.isSome = true) :
+    requestedAdv c = true := by
+  unfold adviceKept at hk
+  simp only [Bool.and_eq_true] at hk
+  unfold requestedAdv
+  have h1 : (c.opts.encryptedAdvice || c.pefim) = true := hk.1
+  have h2 : c.advice.isSome = true := ha
+  simp [h1, h2]
+
+theorem requestedA_of_kept {c : Call} (hk : assertionKept c.rargs = true) : requestedA c = true := by
+  unfold assertionKept at hk
+  simp only [Bool.and_eq_true] at hk
+  exact hk.1
+
+theorem map_clear_not_sealed {x : Option Adv} {k : Key} {adv : Adv} {b : Bool}
+    (h : x.map AdvBox.clear = some (.sealed k adv b)) : False := by
+  cases x <;> simp at h
+
+theorem partB_sealed {a : RArgs} {opsB : List Op} {advB : Option AdvBox} {k : Key} {adv : Adv} {b : Bool}
+    (hp : partB a = .ok (opsB, advB)) (hs : advB = some (.sealed k adv b)) :
+    b = true ∧ chooseCert a.certAdvice a.md = .key k := by
+  rcases partB_inv hp with ⟨_, _, hn⟩ | ⟨adv', _, _, _, hb⟩ | ⟨adv', ko, _, _, hst, _, hb⟩
+  · rw [hn] at hs; cases hs
+  · rw [hb] at hs; cases hs
+  · rw [hb] at hs
+    rcases encryptStep_inv hst with ⟨_, hko⟩ | ⟨k', hk', hko, _⟩
+    · subst hko; simp [sealAdv] at hs
+    · subst hko
+      simp only [sealAdv, Option.some.injEq, AdvBox.sealed.injEq] at hs
+      obtain ⟨h1, _, h3⟩ := hs
+      subst h1
+      exact ⟨h3.symm, hk'⟩
+
+/-- the advice as it can leave a well-posed call: absent, clear and schema-valid (its encryption was not
+    requested), or sealed for the recipient -/
+def AdvOk (c : Call) (advB : Option AdvBox) : Prop :=
+  (c.advice = none ∧ advB = none) ∨
+  (∃ adv, requestedAdv c = false ∧ advB = some (.clear adv) ∧ adv.schemaValid = true) ∨
+  (∃ k adv, advB = some (.sealed k adv true) ∧ k ∈ candidates c.certAdvice c.md)
+
+theorem AdvOk.schemaOk {c : Call} {advB : Option AdvBox} {sig : Option (Option AdvBox)} (h : AdvOk c advB) :
+    Outer.schemaOk { sig := sig, advice := advB } = true := by
+  rcases h with ⟨_, h⟩ | ⟨adv, _, h, hv⟩ | ⟨k, adv, h, _⟩
+  · subst h; rfl
+  · subst h; simpa [Outer.schemaOk, AdvBox.schemaOk] using hv
+  · subst h; rfl
+
+/-- What a well-posed call outside the early-return class issues: the assertion sealed for the recipient
+    (advice inside absent, clear-by-request or sealed), or — when only advice encryption was requested —
+    the assertion in clear around a sealed advice; signatures as requested. -/
+theorem wellPosed_shape {c : Call} {iss : Issued} (hw : wellPosed c = true) (hcls : earlyReturnClass c = false)
+    (h : createAuthnResponse c = .ok iss) :
+    ∃ advB, AdvOk c advB ∧
+      ((∃ k, k ∈ candidates c.certAssertion c.md ∧ requestedA c = true ∧
+          iss.wire = wireOf c.opts.signResponse
+            (.sealed k { sig := if c.opts.signAssertion then some advB else none, advice := advB } true)) ∨
+       (requestedA c = false ∧ (∃ k adv, advB = some (.sealed k adv true)) ∧
+          iss.wire = wireOf c.opts.signResponse
+            (.clear { sig := if c.opts.signAssertion then some advB else none, advice := advB }))) := by
+  obtain ⟨hsome, hA, hAdv⟩ := wellPosed_facts hw
+  -- the early return is not taken
+  have he : earlyReturn c.rargs = false := by
+    cases hee : earlyReturn c.rargs with
+    | false => rfl
+    | true =>
+      exfalso
+      rw [earlyReturn_iff] at hee
+      simp only [Bool.and_eq_true, Bool.not_eq_true'] at hee
+      obtain ⟨⟨hsa, hea⟩, hsr⟩ := hee
+      have hra : requestedA c = false := hea
+      rcases hsome with h1 | h1
+      · rw [hra] at h1; cases h1
+      · have := hAdv h1
+        unfold earlyReturnClass at hcls
+        simp only [this, hsa, hea, hsr] at hcls
+        cases hcls
+  -- the advice as part B leaves it
+  have hB : ∀ {opsB advB}, partB c.rargs = .ok (opsB, advB) → AdvOk c advB := by
+    intro opsB advB hp
+    cases hr : requestedAdv c with
+    | true =>
+      have heff := hAdv hr
+      obtain ⟨⟨adv, hadv⟩, _, hkept, k, hc⟩ := effAdv_facts heff
+      right; right
+      rcases partB_inv hp with ⟨hn, _⟩ | ⟨adv', _, hk', _⟩ | ⟨adv', ko, _, _, hs, _, hb⟩
+      · rw [hadv] at hn; cases hn
+      · rw [hkept] at hk'; cases hk'
+      · rcases encryptStep_inv hs with ⟨hn, _⟩ | ⟨k', hk', hko, _⟩
+        · rw [hc] at hn; cases hn
+        · subst hko
+          exact ⟨k', _, hb, chooseCert_key_mem hk'⟩
+    | false =>
+      rcases partB_inv hp with ⟨hn, _, hb⟩ | ⟨adv', ha', _, _, hb⟩ | ⟨adv', ko, ha', hk', _⟩
+      · exact Or.inl ⟨hn, hb⟩
+      · right; left
+        refine ⟨adv', hr, hb, ?_⟩
+        -- not PEFIM (PEFIM requests advice encryption), so it is the schema-valid assertion handed in
+        have ha'' : c.advice = some adv' := ha'
+        unfold requestedAdv at hr
+        rw [ha''] at hr
+        simp only [Option.isSome_some, Bool.and_true, Bool.or_eq_false_iff] at hr
+        unfold Call.advice at ha''
+        rw [hr.2] at ha''
+        simp only [Bool.false_eq_true, if_false] at ha''
+        split at ha''
+        · cases ha''; rfl
+        · cases ha''
+      · exfalso
+        have := requestedAdv_of_kept hk' (by rw [ha']; rfl)
+        rw [hr] at this; cases this
+  have hsr : c.rargs.sign = c.opts.signResponse := rfl
+  have hsa : c.rargs.signAssertion = c.opts.signAssertion := rfl
+  rcases response_inv h with ⟨he', _⟩ | ⟨_, hkA, hkAdv, _, _⟩ | ⟨_, hkA, opsB, advB, ko, hp, hst, _, hwr⟩ | ⟨_, hkA, hkAdv, hsomeadv, opsB, advB, hp, _, hwr⟩
+  · rw [he] at he'; cases he'
+  · -- nothing kept: then nothing was requested
+    exfalso
+    rcases hsome with h1 | h1
+    · obtain ⟨_, _, hk, _⟩ := effA_facts (hA h1)
+      rw [hk] at hkA; cases hkA
+    · obtain ⟨⟨adv, hadv⟩, _, hk, _⟩ := effAdv_facts (hAdv h1)
+      rw [hk, hadv] at hkAdv; cases hkAdv
+  · have hreq := requestedA_of_kept hkA
+    obtain ⟨_, _, _, k, hc⟩ := effA_facts (hA hreq)
+    refine ⟨advB, hB hp, Or.inl ⟨k, chooseCert_key_mem hc, hreq, ?_⟩⟩
+    rcases encryptStep_inv hst with ⟨hn, _⟩ | ⟨k', hk', hko, _⟩
+    · rw [hc] at hn; cases hn
+    · rw [hc] at hk'; cases hk'
+      subst hko
+      rw [hwr, hsr, hsa]
+      rfl
+  · have hreq : requestedA c = false := by
+      cases hr : requestedA c with
+      | false => rfl
+      | true =>
+        obtain ⟨_, _, hk, _⟩ := effA_facts (hA hr)
+        rw [hk] at hkA; cases hkA
+    have hradv := requestedAdv_of_kept hkAdv hsomeadv
+    have hts : c.rargs.toSign = c.opts.signAssertion := by
+      have : c.opts.encryptAssertion = false := hreq
+      simp [Call.rargs, this]
+    refine ⟨advB, hB hp, Or.inr ⟨hreq, ?_, ?_⟩⟩
+    · rcases hB hp with ⟨hn, _⟩ | ⟨adv, hr, _⟩ | ⟨k, adv, hb, _⟩
+      · rw [show c.rargs.advice = c.advice from rfl, hn] at hsomeadv; cases hsomeadv
+      · rw [hradv] at hr; cases hr
+      · exact ⟨k, adv, hb⟩
+    · rw [hwr, hsr, hts]
+
+theorem toSp_eq (r : Sp.Response) (a : Sp.Assertion) (s : Seen) :
+    toSp r a s = Sp.withA { r with sig := s.respSig }
+      { a with sig := s.asrtSig, encrypted := s.encrypted, decryptable := s.decryptable } := rfl
+
+theorem respSig_wireOf (s : Bool) (body : Body) :
+    respSig (wireOf s body) = if s then (if body.schemaOk then .valid else .corrupted) else .absent := by
+  cases s <;> simp [respSig, wireOf]
+
+theorem sent_body_sealed {i : Input} {w : Wire} {k : Key} {o : Outer} {b : Bool} (h : w.body = .sealed k o b) :
+    (i.sent w).body = .sealed k o (b && !i.tamper) := by
+  unfold Input.sent
+  cases i.tamper <;> simp [Wire.damage, Body.damage, h]
+
+theorem sent_advice_sealed {i : Input} {w : Wire} {k : Key} {adv : Adv} {b : Bool}
+    (h : w.body.outer.advice = some (.sealed k adv b)) :
+    ∃ b', (i.sent w).body.outer.advice = some (.sealed k adv b') ∧
+      ((∀ k' o' b'', w.body ≠ .sealed k' o' b'') → i.tamper = true → b' = false) ∧ (i.tamper = false → b' = b) := by
+  unfold Input.sent
+  cases ht : i.tamper with
+  | false => exact ⟨b, (by simpa using h), (fun _ hf => (by cases hf)), (fun _ => rfl)⟩
+  | true =>
+    simp only [if_true]
+    cases hb : w.body with
+    | sealed k' o' b'' =>
+      rw [hb] at h
+      refine ⟨b, (by simpa [Wire.damage, Body.damage, hb, Body.outer] using h), (fun hne => (hne k' o' b'' rfl).elim), (fun hf => (by cases hf))⟩
+    | clear o' =>
+      rw [hb] at h
+      simp only [Body.outer] at h
+      exact ⟨false, (by simp [Wire.damage, Body.damage, hb, Body.outer, Outer.damage, h, AdvBox.damage]), (fun _ _ => rfl), (fun hf => (by cases hf))⟩
+    | wrapped o' =>
+      rw [hb] at h
+      simp only [Body.outer] at h
+      exact ⟨false, (by simp [Wire.damage, Body.damage, hb, Body.outer, Outer.damage, h, AdvBox.damage]), (fun _ _ => rfl), (fun hf => (by cases hf))⟩
+
+theorem receive_sealed {rc : Recipient} {w : Wire} {k : Key} {o : Outer} {b : Bool} (h : w.body = .sealed k o b) :
+    (receive rc w).encrypted = true ∧ (receive rc w).decryptable = (b && rc.holds k) := by
+  unfold receive
+  simp [h]
+
+theorem receive_advice_sealed {rc : Recipient} {w : Wire} {k : Key} {adv : Adv} {b : Bool}
+    (h : w.body.outer.advice = some (.sealed k adv b)) :
+    (receive rc w).adviceVisible = (b && rc.holds k) := by
+  unfold receive
+  simp [h]
+
+/-- no identity from a Response whose assertion stays shut -/
+theorem outcome_shut {cfg : Sp.Cfg} {env : Sp.Env} {r : Sp.Response} {a : Sp.Assertion} {s : Seen}
+    (he : s.encrypted = true) (hd : s.decryptable = false) :
+    (Sp.process cfg env (toSp r a s)).isIdentity = false := by
+  rw [toSp_eq]
+  exact Sp.process_shut he hd
+
+theorem outerSig_ok {c : Call} {advB : Option AdvBox} (sa : Bool) (h : AdvOk c advB) :
+    outerSig { sig := if sa then some advB else none, advice := advB } = if sa then .valid else .absent := by
+  have hs : ∀ sg, Outer.schemaOk { sig := sg, advice := advB } = true := fun sg => h.schemaOk
+  cases sa <;> simp [outerSig, hs]
+
+/-- what the recipient sees of a well-posed, undamaged Response whose keys it holds -/
+theorem receive_wellPosed {i : Input} {iss : Issued} (hw : wellPosed i.call = true)
+    (hcls : earlyReturnClass i.call = false) (h : createAuthnResponse i.call = .ok iss) (hnt : i.tamper = false)
+    (hkA : ∀ k o b, iss.wire.body = .sealed k o b → i.rc.holds k = true)
+    (hkAdv : ∀ k adv b, iss.wire.body.outer.advice = some (.sealed k adv b) → i.rc.holds k = true) :
+    let s := receive i.rc (i.sent iss.wire)
+    s.respSig = (if i.call.opts.signResponse then .valid else .absent) ∧
+    s.asrtSig = (if i.call.opts.signAssertion then .valid else .absent) ∧
+    s.decryptable = true ∧ (i.hasAdvice = true → s.adviceVisible = true) := by
+  have hsent : i.sent iss.wire = iss.wire := by simp [Input.sent, hnt]
+  rw [hsent]
+  obtain ⟨advB, hok, hshape⟩ := wellPosed_shape hw hcls h
+  rcases hshape with ⟨k, _, _, hwire⟩ | ⟨_, _, hwire⟩
+  · have hk := hkA k _ _ (by rw [hwire]; rfl)
+    have hadvk : ∀ k' adv b, advB = some (.sealed k' adv b) → i.rc.holds k' = true := by
+      intro k' adv b hb
+      exact hkAdv k' adv b (by rw [hwire]; exact hb)
+    rw [hwire]
+    refine ⟨?_, ?_, ?_, ?_⟩
+    · show respSig _ = _
+      rw [respSig_wireOf]; simp [Body.schemaOk]
+    · show outerSig _ = _
+      exact outerSig_ok _ hok
+    · simp [receive, wireOf, hk]
+    · intro hadv
+      rcases hok with ⟨hn, _⟩ | ⟨adv, _, hb, _⟩ | ⟨k', adv, hb, _⟩
+      · unfold Input.hasAdvice at hadv; rw [hn] at hadv; cases hadv
+      · subst hb; simp [receive, wireOf, Body.outer]
+      · have := hadvk k' adv true hb
+        subst hb; simp [receive, wireOf, Body.outer, this]
+  · have hadvk : ∀ k' adv b, advB = some (.sealed k' adv b) → i.rc.holds k' = true := by
+      intro k' adv b hb
+      exact hkAdv k' adv b (by rw [hwire]; exact hb)
+    rw [hwire]
+    refine ⟨?_, ?_, ?_, ?_⟩
+    · show respSig _ = _
+      rw [respSig_wireOf]
+      have := hok.schemaOk (sig := if i.call.opts.signAssertion then some advB else none)
+      simp [Body.schemaOk, this]
+    · show outerSig _ = _
+      exact outerSig_ok _ hok
+    · simp [receive, wireOf]
+    · intro hadv
+      rcases hok with ⟨hn, _⟩ | ⟨adv, _, hb, _⟩ | ⟨k', adv, hb, _⟩
+      · unfold Input.hasAdvice at hadv; rw [hn] at hadv; cases hadv
+      · subst hb; simp [receive, wireOf, Body.outer]
+      · have := hadvk k' adv true hb
+        subst hb; simp [receive, wireOf, Body.outer, this]
+
+/-- the envelope / assertion the recipient's model is run on -/
+def envOf (i : Input) : Sp.Response :=
+  { i.envelope with sig := if i.call.opts.signResponse then .valid else .absent }
+def asrtOf (i : Input) : Sp.Assertion :=
+  { i.content with sig := if i.call.opts.signAssertion then .valid else .absent }
+
+theorem plainVariant_eq (i : Input) : plainVariant i = Sp.withA (envOf i) (Sp.asPlain (asrtOf i)) := rfl
+
+theorem shape_hasCiphertext {c : Call} {iss : Issued} (hw : wellPosed c = true) (hcls : earlyReturnClass c = false)
+    (h : createAuthnResponse c = .ok iss) : iss.wire.hasCiphertext = true := by
+  obtain ⟨advB, _, hshape⟩ := wellPosed_shape hw hcls h
+  rcases hshape with ⟨k, _, _, hwire⟩ | ⟨_, ⟨k, adv, hb⟩, hwire⟩
+  · rw [hwire]; rfl
+  · rw [hwire]; subst hb; rfl
+
 end Encrypt
